@@ -98,9 +98,9 @@ int path::del()
 {
 	return mpt_path_del(this);
 }
-int path::add(int)
+int path::add(int add)
 {
-	return mpt_path_add(this, len);
+	return mpt_path_add(this, add);
 }
 bool path::next()
 {
